@@ -107,9 +107,9 @@ def graph_and_records(draw, canonical, max_records, min_records=1, tags=True, ma
                       real=False, real_with_seq=False):
     if real:
         g = draw(gen_graph.any_graph(tier, max_chroms=max_chroms, max_elements=max_elements, real_with_seq=real_with_seq,
-                                     max_window=8 if real_with_seq else 30, cycles=True))
+                                     max_window=8 if real_with_seq else 30, cycles=True, ref_gaps=True))
     else:
-        g = draw(gen_graph.rgfa(max_chroms=max_chroms, max_elements=max_elements, cycles=True))
+        g = draw(gen_graph.rgfa(max_chroms=max_chroms, max_elements=max_elements, cycles=True, ref_gaps=True))
     lm = models.LinkModel(g["links"])
     n = draw(st.integers(min_records, max_records))
     closed = gen_gaf.revisit_walks(g, lm) if (len(g["nodes"]) <= 60 and draw(st.booleans())) else []
